@@ -1,5 +1,5 @@
 import Drand.Time
-namespace Drand.Driver
+namespace Drand.Driver.TimeD
 open Drand.Time
 
 def timeStep (f : List String) : String :=
@@ -18,4 +18,4 @@ def timeStep (f : List String) : String :=
     | _, _, _ => "bad-op"
   | _ => "bad-op"
 
-end Drand.Driver
+end Drand.Driver.TimeD
